@@ -795,7 +795,7 @@ Section Handlers.
                               | Some d' => set_d d' s
                               | None => crashed (S' "adoption agency: insertBefore reference is not a child") s
                               end
-                          | Some (p, None) => crashed (S' "adoption agency: insertBefore(node, None)") s
+                          | Some (p, None) => wd (fun dd => append_child dd p lastNode) s
                           | None => crashed (S' "getTableMisnestedNodePosition") s
                           end
                         else wd (fun dd => append_child dd common lastNode) s in
